@@ -23,7 +23,21 @@ echo "== demo with patch" >> $log
 go1.26.8 test -vet=off -count=1 -run "$run" $demopkg >> $log 2>&1; patched=$?
 rm -f $wt/$place
 echo "== existing tests with patch: $pkgs" >> $log
-go1.26.8 test -vet=off -count=1 $pkgs >> $log 2>&1; suite=$?
+go1.26.8 test -json -vet=off -count=1 $pkgs > $log.suite.json 2>>$log
+suite=$(python3 - $log.suite.json <<'PY'
+import json,sys
+base=set(json.load(open('/root/.vp/BASELINE.json'))['stable_pass'])
+bad=[]
+for l in open(sys.argv[1]):
+    try: e=json.loads(l)
+    except Exception: continue
+    if e.get('Action')=='fail' and e.get('Test'):
+        name=e['Package']+'::'+e['Test']
+        if name in base: bad.append(name)
+print(len(bad)); sys.stderr.write('stable tests failing with patch: %s\n'%bad)
+PY
+)
+rm -f $log.suite.json
 cd /
 chattr -R -i $wt 2>/dev/null
 git -C /repo worktree remove --force $wt
